@@ -132,3 +132,13 @@ PROPS['C01'] = dict(
     kinds={'panic', 'roundtrip-lossy', 'remarshal-differs', 'policy-incoherent', 'trimmed-value'},
     rule='TODO', level_text='TODO', level_note='TODO',
 )
+
+PROPS['C03'] = dict(
+    id='C03',
+    domains=['ver', 'build', 'unm'],
+    no_model={'ver': True},
+    n=dict(quick=dict(ver=3000, build=800, unm=800), thorough=dict(ver=150000, build=40000, unm=40000)),
+    theorems=[('Properties.C03', [])],
+    kinds={'panic', 'unreported', 'false-report', 'repair-untruthful', 'resource-payload-digest'},
+    rule='TODO', level_text='TODO', level_note='TODO',
+)
